@@ -6,6 +6,7 @@ import (
 	"crypto/sha256"
 	"encoding/binary"
 	"fmt"
+	"io"
 	"sync"
 
 	"github.com/pkg/errors"
@@ -175,6 +176,10 @@ func (reorg *Reorg) Read(buf *bytes.Buffer) error {
 		return err
 	}
 
+	// A block takes at least a header and a count. Don't allocate what the data can't contain.
+	if int64(count) > int64(buf.Len()) {
+		return io.ErrUnexpectedEOF
+	}
 	reorg.Blocks = make([]ReorgBlock, count)
 	for i, _ := range reorg.Blocks {
 		if err := reorg.Blocks[i].Read(buf); err != nil {
@@ -215,9 +220,12 @@ func (block *ReorgBlock) Read(buf *bytes.Buffer) error {
 		return err
 	}
 
+	if int64(count)*bitcoin.Hash32Size > int64(buf.Len()) {
+		return io.ErrUnexpectedEOF
+	}
 	block.TxIds = make([]bitcoin.Hash32, count)
 	for i, _ := range block.TxIds {
-		if _, err := buf.Read(block.TxIds[i][:]); err != nil {
+		if _, err := io.ReadFull(buf, block.TxIds[i][:]); err != nil {
 			return err
 		}
 	}
